@@ -47,6 +47,7 @@ type Profile struct {
 	SizeFlip     bool   // a sink symbol is loaded under a size limit in some nodes
 	EndAfterInput bool  // end nodes of the shape HALT; INCMP t 1; HALT
 	FallMove     bool   // menu nodes that end in a MOVE behind their INCMP lines
+	BrowseSwap   bool   // now and then MPREV is written before MNEXT
 	PoolFlags    bool   // with many flags: CATCH/CROAK and external code draw from a small pool of indices (boundaries favoured), so that they meet
 	flagPool     []uint32
 	HugePages    bool   // accepted values of about 65535 bytes (pages just over 64 KiB)
@@ -476,6 +477,10 @@ func Generate(t *tape.Tape, p Profile) *App {
 			code = append(code, Inst{Op: MNEXT, A: newLabel(), B: []string{"11", "9", "n"}[t.Int(3)]})
 			if t.Chance(5, 6) {
 				code = append(code, Inst{Op: MPREV, A: newLabel(), B: []string{"22", "8", "p"}[t.Int(3)]})
+				if p.BrowseSwap && t.Chance(1, 3) {
+					// the order of the two lines is the author's choice
+					code[len(code)-2], code[len(code)-1] = code[len(code)-1], code[len(code)-2]
+				}
 			}
 		}
 		if msink {
